@@ -216,6 +216,13 @@ def corruption_catalogue(h5, rng):
             h["events"][f].resize(h["events"][f].shape[0] - 1, axis=0)
         out.append(("feature_length", {f"events/{f}"}, c_len,
                     rf"wrong event count: '{re.escape(f)}'"))
+    # the metadata event count itself contradicts the stored features (boundary values incl.)
+    wrong = int(rng.choice([0, 0, 1, n - 1, n + 1, 2 * n, 10 ** 6]))
+    if wrong != n:
+        def c_cnt(h, wrong=wrong):
+            h.attrs["experiment:event count"] = wrong
+        out.append((f"event_count_value[{'zero' if wrong == 0 else 'other'}]",
+                    {"experiment:event count"}, c_cnt, r"wrong event count: '"))
     for ax, dim in (("x", 2), ("y", 1)):
         for feat in ("image", "mask"):
             if feat in ev:
@@ -387,18 +394,29 @@ def run_corrupt(ctx, idx):
                 # compress re-derives the event count from the first feature, so *which*
                 # features are named in "wrong event count" cues may change; that there
                 # is such a cue may not.
+                cnt_corrupted = task == "compress" and any(
+                    nm.startswith("event_count_value") for nm in names)
+
                 def canon(vs):
                     vs = [v for v in vs if not re.search(drop, v)]
+                    if cnt_corrupted:
+                        # the wrong *metadata value* is what compress documents to rectify:
+                        # cues that depend on the event count do not survive the copy
+                        vs = [v for v in vs if not v.startswith("Features: wrong event count")
+                              and "index feature is not enumerated" not in v]
                     if any(v.startswith("Features: wrong event count") for v in vs):
                         # with inconsistent feature lengths the (re-derived) event count
                         # decides whether the stored index still enumerates 1..N
                         vs = [v for v in vs if "index feature is not enumerated" not in v]
                     # (computing ml_class from ml_score features of different lengths is
                     # reported with numpy's "could not broadcast" text: same family)
-                    return sorted(set("Features: wrong event count" if
-                                      v.startswith("Features: wrong event count")
-                                      or "could not broadcast" in v else v
-                                      for v in vs))
+                    vs = sorted(set("Features: wrong event count" if
+                                    v.startswith("Features: wrong event count")
+                                    or "could not broadcast" in v else v
+                                    for v in vs))
+                    if cnt_corrupted:
+                        vs = [v for v in vs if v != "Features: wrong event count"]
+                    return vs
                 viol, viol2 = canon(viol), canon(viol2)
                 ctx.check("c13.copy_invariance", viol2 == viol,
                           lambda: dict(case, task=task, before=viol[:8], after=viol2[:8]),
